@@ -1,0 +1,25 @@
+//go:build verif
+
+package avc
+
+// Add-only hooks for the C14 verification harness: re-export the unexported
+// start-code scanner and the zero-byte word test. Not part of the normal build.
+
+// VerifStartCode is one entry of the scanner's result.
+type VerifStartCode struct {
+	StartCodeLength int
+	StartPos        int
+}
+
+// VerifGetStartCodePositions calls getStartCodePositions.
+func VerifGetStartCodePositions(stream []byte) ([]VerifStartCode, int) {
+	scs, minLen := getStartCodePositions(stream)
+	out := make([]VerifStartCode, len(scs))
+	for i, s := range scs {
+		out[i] = VerifStartCode{s.startCodeLength, s.startPos}
+	}
+	return out, minLen
+}
+
+// VerifHasZeroByte calls hasZeroByte.
+func VerifHasZeroByte(x uint) bool { return hasZeroByte(x) }
